@@ -232,9 +232,50 @@ func ruleQ3(c *Ctx) {
 						}
 					}
 					guarded := false
-					for _, cnd := range pathConds(call.Block()) {
-						cv, neg := stripNot(cnd.If.Cond)
-						if cc, ok := cv.(*ssa.Call); ok && cc.Call.StaticCallee() == pc && cc.Call.Args[0] == pathP && (cnd.Branch == neg) {
+					for _, pf := range pathFacts(call.Block()) {
+						if cc, ok := pf.Cond.(*ssa.Call); ok && cc.Call.StaticCallee() == pc && cc.Call.Args[0] == pathP && !pf.Truth {
+							guarded = true
+						}
+					}
+					if !guarded && fn != wv {
+						// a helper that prints the elements of a container handed to it: the test is owed by
+						// every caller, on the path and the container it passes
+						unwrap := func(v ssa.Value) ssa.Value {
+							if mi, ok := v.(*ssa.MakeInterface); ok {
+								return mi.X
+							}
+							return v
+						}
+						pathIdx, contIdx := -1, -1
+						for i, prm := range fn.Params {
+							if prm == pathP {
+								pathIdx = i
+							}
+							for _, v := range variadicElems(x.Call.Args[1]) {
+								if unwrap(v) == ssa.Value(prm) {
+									contIdx = i
+								}
+							}
+						}
+						sites, good := 0, 0
+						if pathIdx >= 0 && contIdx >= 0 {
+							for _, caller := range c.P.Funcs {
+								eachInstr(caller, func(in2 ssa.Instruction) {
+									c2, ok := in2.(*ssa.Call)
+									if !ok || c2.Call.StaticCallee() != fn || c2.Call.IsInvoke() || len(c2.Call.Args) <= pathIdx || len(c2.Call.Args) <= contIdx {
+										return
+									}
+									sites++
+									for _, pf := range pathFacts(c2.Block()) {
+										if cc, ok := pf.Cond.(*ssa.Call); ok && cc.Call.StaticCallee() == pc && !pf.Truth && cc.Call.Args[0] == c2.Call.Args[pathIdx] && unwrap(cc.Call.Args[1]) == unwrap(c2.Call.Args[contIdx]) {
+											good++
+											return
+										}
+									}
+								})
+							}
+						}
+						if sites > 0 && sites == good {
 							guarded = true
 						}
 					}
@@ -306,8 +347,8 @@ func ruleQ4(c *Ctx) {
 			return
 		}
 		widthOne := false
-		for _, pc := range pathConds(tb) {
-			if bo, ok := pc.If.Cond.(*ssa.BinOp); ok && bo.Op == token.EQL && pc.Branch {
+		for _, pf := range pathFacts(tb) {
+			if bo, ok := pf.Cond.(*ssa.BinOp); ok && bo.Op == token.EQL && pf.Truth {
 				if kk, isK := constInt(bo.Y); isK && kk == 1 && strings.Contains(bo.X.Name(), "") {
 					if _, isPhi := bo.X.(*ssa.Phi); isPhi {
 						widthOne = true
